@@ -6,7 +6,7 @@ EXEC_CBS = ("select", "operate", "write_time", "cold_restart", "warm_restart", "
 
 class C05(OutstationProp):
     id = "C05"
-    proof_targets = ["Outstation/SessionC05Proofs.vo"]
+    proof_targets = ["Outstation/SessionC05Proofs.vo", "Outstation/FullCorollaries.vo"]
     property_file = "Properties/C05.v"
     rule = ("session histories in which requests of every executed function code are repeated once or several times: from "
             "idle, during a solicited confirm wait (any fragment of a multi-fragment series), during an unsolicited "
